@@ -241,7 +241,7 @@ def run_tier_b_property(prop, tier, quick_s, thorough_s, drivers, collectors, co
                 with lock:
                     done[i] = (run, res)
                     v = tb.classify(run, res)
-                    if v is not None and v[0] != "timeout":
+                    if v is not None and v[0] not in ("timeout", "step-budget"):
                         # (a wall-clock timeout is only believed after it has been repeated
                         # with a larger limit, see handle_violations - it does not stop the search)
                         key = key_fn(run, v, res) if key_fn else "%s:%s" % (run["exe"][0], v[0])
@@ -624,13 +624,17 @@ def ex_run(seed, prop, i, fault_free, collectors=("zero", "copy", "sweep", "swip
     cg = cfg.choice(list(codegens))
     heap_mb = cfg.choice([4, 8, 16, 32])
     script = mx.generate(wl, heap_mb << 20, gc)
-    flags = ["--max-heap-size=%dM" % heap_mb, "--gc-worker=%d" % cfg.choice([1, 2, 4])]
     if script[0] == 1:
-        # number of objects retained before the heap is exhausted
+        # number of objects retained before the heap is exhausted: keep it below ~200 000 by
+        # using a smaller heap for small objects (a run that retains a million objects costs
+        # minutes of simulated collections and tells nothing more)
         objsize = mx.ESZ.get(script[3], 32) * script[4] + 16 if script[3] != 9 else 32
+        while heap_mb > 4 and (heap_mb << 20) // max(objsize, 16) > 200_000:
+            heap_mb //= 2
         nobjects = (heap_mb << 20) // max(objsize, 16)
     else:
         nobjects = 0
+    flags = ["--max-heap-size=%dM" % heap_mb, "--gc-worker=%d" % cfg.choice([1, 2, 4])]
     if cfg.random() < 0.15 and nobjects < 20000:
         # without TLABs every allocation takes the allocator locks: keep such runs short
         flags.append("--disable-tlab")
